@@ -619,7 +619,7 @@ def run(ctx, tier: str, seed: int) -> None:
     # ---- pairing
     t0 = time.time()
     yps = [0, 1, 3] if thorough else [1]
-    jobs = [(i, yp, 720 if thorough else 120, rng.randrange(2 ** 30)) for i in range(len(_PAIRING_CASES)) for yp in yps]
+    jobs = [(i, yp, 720 if thorough else 240, rng.randrange(2 ** 30)) for i in range(len(_PAIRING_CASES)) for yp in yps]
     results = pmap(_pairing_job_safe, jobs)
     cases = set().union(*[r["cases"] for r in results])
     witnesses = [w for r in results for w in r["violations"]]
@@ -631,14 +631,14 @@ def run(ctx, tier: str, seed: int) -> None:
                 exhaustive=all(r["exhaustive"] for r in results),
                 bound=f"{len(_PAIRING_CASES)} fixed calls of evaluate_conditions / evaluate_format_constraints / get_hints / "
                       f"gather_if_necessary / expand_packages with <= 5 awaitables per round: all permutations of every "
-                      f"round (seeded samples where the product exceeds {720 if thorough else 120}); yield patterns {yps}",
+                      f"round (seeded samples where the product exceeds {720 if thorough else 240}); yield patterns {yps}",
                 seconds=time.time() - t0)
     _report(ctx, "pairing", witnesses)
 
     # ---- overall
     t0 = time.time()
-    n_tables = 6 if thorough else 3
-    limit, n_steps = (720, 150) if thorough else (120, 24)
+    n_tables = 8 if thorough else 4
+    limit, n_steps = (1440, 300) if thorough else (240, 40)
     jobs = []
     for index, entry in enumerate(POOL):
         for t, table in enumerate(tables_for(entry, n_tables, rng)):
@@ -665,8 +665,8 @@ def run(ctx, tier: str, seed: int) -> None:
 
     # ---- concurrent
     t0 = time.time()
-    variants = range(12 if thorough else 4)
-    jobs = [(v, 60 if thorough else 10, v % 4, rng.randrange(2 ** 30)) for v in variants]
+    variants = range(16 if thorough else 8)
+    jobs = [(v, 100 if thorough else 16, v % 4, rng.randrange(2 ** 30)) for v in variants]
     results = pmap(_concurrent_job_safe, jobs)
     cases = set().union(*[r["cases"] for r in results])
     witnesses = [w for r in results for w in r["violations"]]
